@@ -121,3 +121,5 @@ func verifB2I(c bool) int {
 	}
 	return 0
 }
+
+func verifNote(msg string, vals ...any) {}
